@@ -5,7 +5,8 @@ Proofs/Serial — lemmas for property C08 (parse → build → parse → build r
   `parseMany_inv`, `parseTag_inv`, `parseIEntry_inv`, …): the input is the serialisation of the
   value read followed by the unread rest, and the value is well formed;
 * `parseInstall_inv`: every input the install parser accepts is `serInstall m ++ trailing` with
-  `m` well formed; `parseZFile_ser` / `parseZFile_inv` for the ZBSDIFF container.
+  `m` well formed; `parseZFile_ser` / `parseZFile_inv` for the ZBSDIFF container;
+  `parseSFile_ser` / `parseSFile_inv` / `sfileValid_of_wf` for the size manifest (V1, V2).
 -/
 import Cascette.Model.Serial
 import Cascette.Proofs.ManifestSer
@@ -422,6 +423,375 @@ theorem parseZFile_inv {bs : Bytes} {z : ZFile} (h : parseZFile bs = some z) :
                   simp only [serZFile, w1, w2, w3]
                   rw [e0, e1, e2, e3, e4, e5, hs']
                   simp
+
+
+/-! ### size manifest -/
+
+
+theorem beW_length (w n : Nat) : (beW w n).length = w := by
+  induction w generalizing n with
+  | zero => rfl
+  | succ w ih => simp [beW, ih]
+
+theorem rdBe_append1 (bs : Bytes) (b : Byte) : rdBe (bs ++ [b]) = rdBe bs * 256 + b.toNat := by
+  simp [rdBe, List.foldl_append]
+
+theorem rdBe_beW (w n : Nat) : rdBe (beW w n) = n % 256 ^ w := by
+  induction w generalizing n with
+  | zero => simp [beW, rdBe, Nat.mod_one]
+  | succ w ih =>
+    simp only [beW, rdBe_append1, ih, BitVec.toNat_ofNat]
+    have e : (256 : Nat) ^ (w + 1) = 256 * 256 ^ w := by rw [Nat.pow_succ, Nat.mul_comm]
+    rw [e, Nat.mod_mul]
+    have : (2 : Nat) ^ 8 = 256 := by decide
+    omega
+
+theorem rev_ind {P : Bytes → Prop} (h0 : P []) (h1 : ∀ bs b, P bs → P (bs ++ [b])) : ∀ bs, P bs := by
+  intro bs
+  have : ∀ l : Bytes, P l.reverse := by
+    intro l
+    induction l with
+    | nil => exact h0
+    | cons a l ih => rw [List.reverse_cons]; exact h1 _ _ ih
+  have h := this bs.reverse
+  rw [List.reverse_reverse] at h
+  exact h
+
+theorem rdBe_lt (bs : Bytes) : rdBe bs < 256 ^ bs.length := by
+  induction bs using rev_ind with
+  | h0 => simp [rdBe]
+  | h1 bs b ih =>
+    rw [rdBe_append1, List.length_append, List.length_singleton, Nat.pow_succ]
+    have := b.isLt
+    omega
+
+theorem beW_rdBe (bs : Bytes) : beW bs.length (rdBe bs) = bs := by
+  induction bs using rev_ind with
+  | h0 => rfl
+  | h1 bs b ih =>
+    rw [List.length_append, List.length_singleton, beW, rdBe_append1]
+    have h1 : (rdBe bs * 256 + b.toNat) / 256 = rdBe bs := by have := b.isLt; omega
+    have h2 : (BitVec.ofNat 8 (rdBe bs * 256 + b.toNat) : Byte) = b := by
+      apply BitVec.eq_of_toNat_eq; simp only [BitVec.toNat_ofNat]; have := b.isLt; omega
+    rw [h1, h2, ih]
+
+structure SEntryWf (ks w : Nat) (e : SEntry) : Prop where
+  key : e.key.length = ks
+  esize : e.esize < 256 ^ w
+
+theorem parseSEntry_ser (ks w : Nat) (e : SEntry) (rest : Bytes) (h : SEntryWf ks w e) :
+    parseSEntry ks w (serSEntry w e ++ rest) = some (e, rest) := by
+  obtain ⟨key, esize⟩ := e
+  unfold parseSEntry serSEntry
+  simp only [List.append_assoc]
+  rw [readN_append ks _ _ h.key]
+  simp only
+  rw [readN_append w _ _ (beW_length _ _)]
+  simp only [rdBe_beW, Nat.mod_eq_of_lt h.esize]
+
+theorem parseSEntry_inv {ks w : Nat} {bs r : Bytes} {e : SEntry} (h : parseSEntry ks w bs = some (e, r)) :
+    bs = serSEntry w e ++ r ∧ SEntryWf ks w e := by
+  unfold parseSEntry at h
+  cases h1 : readN ks bs with
+  | none => simp [h1] at h
+  | some q1 =>
+    obtain ⟨k, r1⟩ := q1
+    simp only [h1] at h
+    cases h2 : readN w r1 with
+    | none => simp [h2] at h
+    | some q2 =>
+      obtain ⟨eb, r2⟩ := q2
+      simp only [h2, Option.some.injEq, Prod.mk.injEq] at h
+      obtain ⟨rfl, rfl⟩ := h
+      obtain ⟨e1, l1⟩ := readN_inv h1
+      obtain ⟨e2, l2⟩ := readN_inv h2
+      refine ⟨?_, ⟨l1, by rw [← l2]; exact rdBe_lt eb⟩⟩
+      have := beW_rdBe eb
+      rw [l2] at this
+      simp only [serSEntry, this]
+      rw [e1, e2]; simp
+
+
+/-- well-formed size manifest value (what `parse` establishes and `validate` + the tag reader check) -/
+structure SWf (f : SFile) : Prop where
+  version : f.version = 1 ∨ f.version = 2
+  ksLo : 1 ≤ f.ekeySize
+  ksHi : f.ekeySize ≤ 16
+  width : if f.version = 1 then 1 ≤ f.width ∧ f.width ≤ 8 else f.width = 4
+  total : sumU64 f.entries = f.total
+  total40 : f.version = 2 → f.total < 256 ^ 5
+  tagCount : f.tags.length < 65536
+  entryCount : f.entries.length < 4294967296
+  tags : ∀ t ∈ f.tags, TagWf f.entries.length t
+  names : (f.tags.all fun t => validUtf8 t.name) = true
+  entries : ∀ e ∈ f.entries, SEntryWf f.ekeySize f.width e
+
+theorem len9 {l : Bytes} (h : l.length = 9) : ∃ a b c d e f g i j, l = [a, b, c, d, e, f, g, i, j] := by
+  match l, h with
+  | [a, b, c, d, e, f, g, i, j], _ => exact ⟨a, b, c, d, e, f, g, i, j, rfl⟩
+
+theorem beW8_eq (n : Nat) : ∃ a0 a1 a2 a3 a4 a5 a6 a7 : Byte, beW 8 n = [a0, a1, a2, a3, a4, a5, a6, a7] :=
+  ⟨_, _, _, _, _, _, _, _, rfl⟩
+
+theorem sumU64_lt (es : List SEntry) : sumU64 es < 256 ^ 8 := by
+  unfold sumU64
+  have : (2 : Nat) ^ 64 = 256 ^ 8 := by decide
+  rw [this]; exact Nat.mod_lt _ (by decide)
+
+theorem parseSFile_inv {bs : Bytes} {f : SFile} (h : parseSFile bs = some f) :
+    SWf f ∧ ∃ t, bs = serSFile f ++ t := by
+  unfold parseSFile at h
+  cases h0 : readN 10 bs with
+  | none => simp [h0] at h
+  | some q =>
+    obtain ⟨hd, r0⟩ := q
+    obtain ⟨e0, l0⟩ := readN_inv h0
+    obtain ⟨m0, m1, ver, ks, c0, c1, c2, c3, t0, t1, rfl⟩ := len10 l0
+    simp only [h0] at h
+    by_cases hv1 : ver.toNat = 1
+    · have hver : ver = 1#8 := by
+        apply BitVec.eq_of_toNat_eq; rw [hv1]; rfl
+      subst hver
+      simp only [hv1, if_true] at h
+      cases h9 : readN 9 r0 with
+      | none => simp [h9] at h
+      | some q9 =>
+        obtain ⟨x9, r1⟩ := q9
+        obtain ⟨e9, l9⟩ := readN_inv h9
+        obtain ⟨a0, a1, a2, a3, a4, a5, a6, a7, w, rfl⟩ := len9 l9
+        simp only [h9] at h
+        by_cases hm : m0 ≠ 0x44 ∨ m1 ≠ 0x53
+        · rw [if_pos hm] at h; cases h
+        · rw [if_neg hm] at h
+          by_cases hk : ks.toNat = 0 ∨ ks.toNat > 16
+          · rw [if_pos hk] at h; cases h
+          · rw [if_neg hk] at h
+            by_cases hw : True ∧ (w.toNat = 0 ∨ w.toNat > 8)
+            · rw [if_pos hw] at h; cases h
+            · rw [if_neg hw] at h
+              cases hT : parseMany (parseTag (rdBe [c0, c1, c2, c3])) (rdBe [t0, t1]) r1 with
+              | none => simp [hT] at h
+              | some qT =>
+                obtain ⟨tags, r2⟩ := qT
+                simp only [hT] at h
+                cases hE : parseMany (parseSEntry ks.toNat w.toNat) (rdBe [c0, c1, c2, c3]) r2 with
+                | none => simp [hE] at h
+                | some qE =>
+                  obtain ⟨entries, r3⟩ := qE
+                  simp only [hE] at h
+                  by_cases hu : (!(tags.all fun t => validUtf8 t.name)) = true
+                  · rw [if_pos hu] at h; cases h
+                  · rw [if_neg hu] at h
+                    by_cases hs : sumU64 entries ≠ rdBe [a0, a1, a2, a3, a4, a5, a6, a7]
+                    · rw [if_pos hs] at h; cases h
+                    · rw [if_neg hs] at h
+                      simp only [Option.some.injEq] at h
+                      subst h
+                      obtain ⟨eT, lT, wT⟩ := parseMany_inv _ serTag (TagWf (rdBe [c0, c1, c2, c3]))
+                        (fun b x r hh => parseTag_inv hh) _ _ _ _ hT
+                      obtain ⟨eE, lE, wE⟩ := parseMany_inv _ (serSEntry w.toNat) (SEntryWf ks.toNat w.toNat)
+                        (fun b x r hh => parseSEntry_inv hh) _ _ _ _ hE
+                      have hs' : sumU64 entries = rdBe [a0, a1, a2, a3, a4, a5, a6, a7] := by
+                        by_cases x : sumU64 entries = rdBe [a0, a1, a2, a3, a4, a5, a6, a7]
+                        · exact x
+                        · exact absurd x hs
+                      have hm0 : m0 = 0x44 := by
+                        by_cases x : m0 = 0x44
+                        · exact x
+                        · exact absurd (Or.inl x) hm
+                      have hm1 : m1 = 0x53 := by
+                        by_cases x : m1 = 0x53
+                        · exact x
+                        · exact absurd (Or.inr x) hm
+                      have hu' : (tags.all fun t => validUtf8 t.name) = true := by
+                        cases hx : (tags.all fun t => validUtf8 t.name) with
+                        | true => rfl
+                        | false => simp [hx] at hu
+                      refine ⟨⟨Or.inl rfl, by simp only; omega, by simp only; omega, ?_, hs', ?_,
+                        by rw [lT]; exact rdBe2_lt _ _, by rw [lE]; exact rdBe4_lt _ _ _ _,
+                        by rw [lE]; exact wT, hu', wE⟩, r3, ?_⟩
+                      · have hw' : ¬(w.toNat = 0 ∨ w.toNat > 8) := fun x => hw ⟨trivial, x⟩
+                        show (if (1 : Nat) = 1 then 1 ≤ w.toNat ∧ w.toNat ≤ 8 else w.toNat = 4)
+                        rw [if_pos rfl]; omega
+                      · exact fun h2 => absurd h2 (show ¬ ((1 : Nat) = 2) by omega)
+                      · have hb : beW 8 (rdBe [a0, a1, a2, a3, a4, a5, a6, a7]) = [a0, a1, a2, a3, a4, a5, a6, a7] :=
+                          beW_rdBe [a0, a1, a2, a3, a4, a5, a6, a7]
+                        simp only [serSFile, serSHeader, lT, lE, be16_rdBe, be32_rdBe, if_true,
+                          ofNat_toNat8, hb]
+                        rw [e0, e9, eT, eE, hm0, hm1]; simp
+    · simp only [hv1, if_false] at h
+      by_cases hv2 : ver.toNat = 2
+      · have hver : ver = 2#8 := by
+          apply BitVec.eq_of_toNat_eq; rw [hv2]; rfl
+        subst hver
+        simp only [hv2, if_true] at h
+        cases h5 : readN 5 r0 with
+        | none => simp [h5] at h
+        | some q5 =>
+          obtain ⟨tb, r1⟩ := q5
+          obtain ⟨e5, l5⟩ := readN_inv h5
+          simp only [h5] at h
+          by_cases hm : m0 ≠ 0x44 ∨ m1 ≠ 0x53
+          · rw [if_pos hm] at h; cases h
+          · rw [if_neg hm] at h
+            by_cases hk : ks.toNat = 0 ∨ ks.toNat > 16
+            · rw [if_pos hk] at h; cases h
+            · rw [if_neg hk] at h
+              by_cases hw : False ∧ ((4 : Nat) = 0 ∨ (4 : Nat) > 8)
+              · exact absurd hw.1 id
+              · rw [if_neg hw] at h
+                cases hT : parseMany (parseTag (rdBe [c0, c1, c2, c3])) (rdBe [t0, t1]) r1 with
+                | none => simp [hT] at h
+                | some qT =>
+                  obtain ⟨tags, r2⟩ := qT
+                  simp only [hT] at h
+                  cases hE : parseMany (parseSEntry ks.toNat 4) (rdBe [c0, c1, c2, c3]) r2 with
+                  | none => simp [hE] at h
+                  | some qE =>
+                    obtain ⟨entries, r3⟩ := qE
+                    simp only [hE] at h
+                    by_cases hu : (!(tags.all fun t => validUtf8 t.name)) = true
+                    · rw [if_pos hu] at h; cases h
+                    · rw [if_neg hu] at h
+                      by_cases hs : sumU64 entries ≠ rdBe tb
+                      · rw [if_pos hs] at h; cases h
+                      · rw [if_neg hs] at h
+                        simp only [Option.some.injEq] at h
+                        subst h
+                        obtain ⟨eT, lT, wT⟩ := parseMany_inv _ serTag (TagWf (rdBe [c0, c1, c2, c3]))
+                          (fun b x r hh => parseTag_inv hh) _ _ _ _ hT
+                        obtain ⟨eE, lE, wE⟩ := parseMany_inv _ (serSEntry 4) (SEntryWf ks.toNat 4)
+                          (fun b x r hh => parseSEntry_inv hh) _ _ _ _ hE
+                        have hs' : sumU64 entries = rdBe tb := by
+                          by_cases x : sumU64 entries = rdBe tb
+                          · exact x
+                          · exact absurd x hs
+                        have hm0 : m0 = 0x44 := by
+                          by_cases x : m0 = 0x44
+                          · exact x
+                          · exact absurd (Or.inl x) hm
+                        have hm1 : m1 = 0x53 := by
+                          by_cases x : m1 = 0x53
+                          · exact x
+                          · exact absurd (Or.inr x) hm
+                        have hu' : (tags.all fun t => validUtf8 t.name) = true := by
+                          cases hx : (tags.all fun t => validUtf8 t.name) with
+                          | true => rfl
+                          | false => simp [hx] at hu
+                        refine ⟨⟨Or.inr rfl, by simp only; omega, by simp only; omega, ?_, hs', ?_,
+                          by rw [lT]; exact rdBe2_lt _ _, by rw [lE]; exact rdBe4_lt _ _ _ _,
+                          by rw [lE]; exact wT, hu', wE⟩, r3, ?_⟩
+                        · simp
+                        · intro _; simp only; rw [← l5]; exact rdBe_lt tb
+                        · have hb := beW_rdBe tb
+                          rw [l5] at hb
+                          simp only [serSFile, serSHeader, lT, lE, be16_rdBe, be32_rdBe,
+                            show ¬ ((2 : Nat) = 1) by omega, if_false, ofNat_toNat8, hb]
+                          rw [e0, e5, eT, eE, hm0, hm1]; simp
+      · simp only [hv2, if_false] at h
+        cases h
+
+
+
+theorem parseSFile_ser (f : SFile) (h : SWf f) (trail : Bytes) :
+    parseSFile (serSFile f ++ trail) = some f := by
+  obtain ⟨version, ks, total, width, tags, entries⟩ := f
+  obtain ⟨a, b, hab⟩ := be16_eq tags.length
+  obtain ⟨c0, c1, c2, c3, hc⟩ := be32_eq entries.length
+  have hT := h.tags
+  have hE := h.entries
+  have htc := h.tagCount
+  have hec := h.entryCount
+  have hks1 := h.ksLo
+  have hks2 := h.ksHi
+  have hw := h.width
+  have htot := h.total
+  have ht40 := h.total40
+  have hn := h.names
+  simp only at hT hE htc hec hks1 hks2 hw htot ht40 hn
+  have rab : rdBe [a, b] = tags.length := by rw [← hab]; exact rdBe_be16 _ htc
+  have rc : rdBe [c0, c1, c2, c3] = entries.length := by rw [← hc]; exact rdBe_be32 _ hec
+  have pT : ∀ r, parseMany (parseTag entries.length) tags.length ((tags.map serTag).flatten ++ r) = some (tags, r) :=
+    fun r => parseMany_ser _ _ _ _ (fun t ht r' => parseTag_ser _ _ _ (hT t ht))
+  have pE : ∀ r, parseMany (parseSEntry ks width) entries.length
+      ((entries.map (serSEntry width)).flatten ++ r) = some (entries, r) :=
+    fun r => parseMany_ser _ _ _ _ (fun e he r' => parseSEntry_ser _ _ _ _ (hE e he))
+  have hksm : (BitVec.ofNat 8 ks : Byte).toNat = ks := by
+    simp only [BitVec.toNat_ofNat]; omega
+  unfold parseSFile serSFile serSHeader
+  simp only
+  rw [hab, hc]
+  rcases h.version with hv | hv <;> simp only at hv <;> subst hv
+  · rw [if_pos rfl] at hw
+    obtain ⟨a0, a1, a2, a3, a4, a5, a6, a7, h8⟩ := beW8_eq total
+    have r8 : rdBe [a0, a1, a2, a3, a4, a5, a6, a7] = total := by
+      rw [← h8, rdBe_beW, ← htot]; exact Nat.mod_eq_of_lt (sumU64_lt _)
+    have hwm : (BitVec.ofNat 8 width : Byte).toNat = width := by
+      simp only [BitVec.toNat_ofNat]; omega
+    simp only [if_true, h8]
+    have e1 : [0x44, 0x53, BitVec.ofNat 8 1, BitVec.ofNat 8 ks] ++ [c0, c1, c2, c3] ++ [a, b] ++
+        ([a0, a1, a2, a3, a4, a5, a6, a7] ++ [BitVec.ofNat 8 width]) ++
+        (tags.map serTag).flatten ++ (entries.map (serSEntry width)).flatten ++ trail
+        = [0x44, 0x53, BitVec.ofNat 8 1, BitVec.ofNat 8 ks, c0, c1, c2, c3, a, b] ++
+          ([a0, a1, a2, a3, a4, a5, a6, a7, BitVec.ofNat 8 width] ++
+          ((tags.map serTag).flatten ++ ((entries.map (serSEntry width)).flatten ++ trail))) := by simp
+    rw [e1, readN_append 10 _ _ rfl]
+    simp only [show (BitVec.ofNat 8 1 : Byte).toNat = 1 from rfl, if_true]
+    rw [readN_append 9 _ _ rfl]
+    simp only [rab, rc, r8, hksm, hwm]
+    rw [if_neg (by simp), if_neg (by omega), if_neg (by omega), pT]
+    simp only
+    rw [pE]
+    simp only [hn, Bool.not_true, Bool.false_eq_true, if_false, htot, ne_eq, not_true_eq_false]
+  · rw [if_neg (by omega)] at hw
+    subst hw
+    have r5 : rdBe (beW 5 total) = total := by
+      rw [rdBe_beW]; exact Nat.mod_eq_of_lt (ht40 rfl)
+    simp only [show ¬ ((2 : Nat) = 1) by omega, if_false]
+    have e1 : [0x44, 0x53, BitVec.ofNat 8 2, BitVec.ofNat 8 ks] ++ [c0, c1, c2, c3] ++ [a, b] ++
+        beW 5 total ++
+        (tags.map serTag).flatten ++ (entries.map (serSEntry 4)).flatten ++ trail
+        = [0x44, 0x53, BitVec.ofNat 8 2, BitVec.ofNat 8 ks, c0, c1, c2, c3, a, b] ++
+          (beW 5 total ++
+          ((tags.map serTag).flatten ++ ((entries.map (serSEntry 4)).flatten ++ trail))) := by simp
+    rw [e1, readN_append 10 _ _ rfl]
+    simp only [show (BitVec.ofNat 8 2 : Byte).toNat = 2 from rfl, show ¬ ((2 : Nat) = 1) by omega,
+      if_false, if_true]
+    rw [readN_append 5 _ _ (beW_length _ _)]
+    simp only [rab, rc, r5, hksm]
+    rw [if_neg (by simp), if_neg (by omega), if_neg (by omega), pT]
+    simp only
+    rw [pE]
+    simp only [hn, Bool.not_true, Bool.false_eq_true, if_false, htot, ne_eq, not_true_eq_false]
+
+
+
+theorem sfileValid_of_wf (f : SFile) (h : SWf f) : sfileValid f = true := by
+  obtain ⟨version, ks, total, width, tags, entries⟩ := f
+  have hE := h.entries
+  have htc := h.tagCount
+  have hec := h.entryCount
+  have hks1 := h.ksLo
+  have hks2 := h.ksHi
+  have hw := h.width
+  have htot := h.total
+  have ht40 := h.total40
+  simp only at hE htc hec hks1 hks2 hw htot ht40
+  have hall1 : (entries.all fun e => decide (e.esize < 256 ^ width)) = true := by
+    rw [List.all_eq_true]; intro e he; simp only [decide_eq_true_eq]; exact (hE e he).esize
+  have hall2 : (entries.all fun e => e.key.length == ks) = true := by
+    rw [List.all_eq_true]; intro e he; simp only [beq_iff_eq]; exact (hE e he).key
+  unfold sfileValid
+  simp only [hall1, hall2, Bool.and_true]
+  rcases h.version with hv | hv <;> simp only at hv <;> subst hv
+  · rw [if_pos rfl] at hw
+    simp [hks1, hks2, hw.1, hw.2, hec, htc, htot]
+  · rw [if_neg (by omega)] at hw
+    subst hw
+    have := ht40 rfl
+    have e : (256 : Nat) ^ 5 = 2 ^ 40 := by decide
+    rw [e] at this
+    simp [hks1, hks2, hec, htc, htot, this]
 
 
 end Cascette.Proofs.Serial
